@@ -13,22 +13,27 @@ variable (cfg : Cfg) (bytesOf : Nat → Bytes)
 def inCS : Pc → Bool
   | .idle => false
   | .bgDial => false
+  | .reconf => false
   | _ => true
 
 /-! ### mutual exclusion -/
 
 /-- Direct mode: whoever is inside the critical section is a sender and holds the send lock, and
     the queue stays empty (so process() never sends).  Queue mode: only process() (thread 0) is
-    ever inside. -/
+    ever inside — holding the lock if `procLocked`.  A thread inside ApplyConfig between Close and
+    Connect holds the lock if `acLocked`. -/
 structure MutexInv (s : St) : Prop where
   cs : ∀ t, inCS (s.pc t) = true →
-        (cfg.useQueue = true → t = 0) ∧ (cfg.useQueue = false → t ≠ 0 ∧ s.lock = some t)
+        (cfg.useQueue = true → t = 0 ∧ (cfg.procLocked = true → s.lock = some 0)) ∧
+        (cfg.useQueue = false → t ≠ 0 ∧ s.lock = some t)
   noq : cfg.useQueue = false → s.queue = []
+  rlock : ∀ t, s.pc t = .reconf → t ≠ 0 ∧ (cfg.acLocked = true → s.lock = some t)
 
 theorem mutexInv_init : MutexInv cfg init := by
-  constructor
+  refine ⟨?_, ?_, ?_⟩
   · intro t h; simp [init, St.pc, AMap.get, inCS] at h
   · intro _; rfl
+  · intro t h; simp [init, St.pc, AMap.get] at h
 
 @[simp] theorem pc_setPc (s : St) (t t' : Nat) (p : Pc) :
     (s.setPc t p).pc t' = if t = t' then p else s.pc t' := by
@@ -37,8 +42,8 @@ theorem mutexInv_init : MutexInv cfg init := by
 /-- thread `t` moves to `p` (staying inside, or leaving, the critical section); lock and queue unchanged -/
 theorem MutexInv.move {s s' : St} (hi : MutexInv cfg s) (t : Nat) (p : Pc)
     (hpc : ∀ t', s'.pc t' = if t = t' then p else s.pc t') (hl : s'.lock = s.lock) (hq : s'.queue = s.queue)
-    (hin : inCS p = true → inCS (s.pc t) = true) : MutexInv cfg s' := by
-  constructor
+    (hin : inCS p = true → inCS (s.pc t) = true) (hr : p ≠ .reconf) : MutexInv cfg s' := by
+  refine ⟨?_, ?_, ?_⟩
   · intro t' ht'
     rw [hpc] at ht'
     rw [hl]
@@ -46,12 +51,19 @@ theorem MutexInv.move {s s' : St} (hi : MutexInv cfg s) (t : Nat) (p : Pc)
     · subst e; rw [if_pos rfl] at ht'; exact hi.cs t (hin ht')
     · rw [if_neg e] at ht'; exact hi.cs t' ht'
   · rw [hq]; exact hi.noq
+  · intro t' ht'
+    rw [hpc] at ht'
+    rw [hl]
+    by_cases e : t = t'
+    · rw [if_pos e] at ht'; exact absurd ht' hr
+    · rw [if_neg e] at ht'; exact hi.rlock t' ht'
 
 theorem MutexInv.same {s s' : St} (hi : MutexInv cfg s)
     (hpc : s'.pcs = s.pcs) (hl : s'.lock = s.lock) (hq : s'.queue = s.queue) : MutexInv cfg s' := by
-  constructor
+  refine ⟨?_, ?_, ?_⟩
   · intro t' ht'; simp only [St.pc, hpc] at ht'; rw [hl]; exact hi.cs t' ht'
   · rw [hq]; exact hi.noq
+  · intro t' ht'; simp only [St.pc, hpc] at ht'; rw [hl]; exact hi.rlock t' ht'
 
 theorem finish_pc (s : St) (t sid : Nat) (ok : Bool) (t' : Nat) :
     (s.finish t sid ok).pc t' = if t = t' then (if t = 0 then .idle else .done sid ok) else s.pc t' := by
@@ -67,94 +79,174 @@ theorem finish_lock (s : St) (t sid : Nat) (ok : Bool) : (s.finish t sid ok).loc
 theorem finish_queue (s : St) (t sid : Nat) (ok : Bool) : (s.finish t sid ok).queue = s.queue := by
   unfold St.finish; cases ok <;> by_cases h0 : t = 0 <;> simp [h0, St.setPc]
 
+/-- the end of a `send()+Flush()`: thread `t` leaves the critical section (process() releasing the
+    lock if it held it) -/
+theorem MutexInv.finished {s s1 : St} (hi : MutexInv cfg s) (t : Nat) (p : Pc) (b : Bool)
+    (hpc : ∀ t', s1.pc t' = if t = t' then p else s.pc t') (hl : s1.lock = s.lock) (hq : s1.queue = s.queue)
+    (hcs : inCS (s.pc t) = true) (hp : inCS p = true → t ≠ 0) (hr : p ≠ .reconf)
+    (hb : b = cfg.procLocked) : MutexInv cfg (s1.procRel b t) := by
+  have hpc' : ∀ t', (s1.procRel b t).pc t' = if t = t' then p else s.pc t' := hpc
+  have hq' : (s1.procRel b t).queue = s.queue := hq
+  by_cases h0 : t = 0 ∧ b = true
+  · obtain ⟨rfl, hbt⟩ := h0
+    have hlk : (s1.procRel b 0).lock = none := by simp [St.procRel, hbt]
+    have huq : cfg.useQueue = true := by
+      cases hu : cfg.useQueue with
+      | true => rfl
+      | false => exact absurd rfl ((hi.cs 0 hcs).2 hu).1
+    have hold : s.lock = some 0 := ((hi.cs 0 hcs).1 huq).2 (by rw [← hb]; exact hbt)
+    refine ⟨?_, ?_, ?_⟩
+    · intro t' ht'
+      rw [hpc'] at ht'
+      by_cases e : 0 = t'
+      · subst e; rw [if_pos rfl] at ht'; exact absurd rfl (hp ht')
+      · rw [if_neg e] at ht'
+        exact absurd ((hi.cs t' ht').1 huq).1.symm e
+    · rw [hq']; exact hi.noq
+    · intro t' ht'
+      rw [hpc'] at ht'
+      by_cases e : 0 = t'
+      · rw [if_pos e] at ht'; exact absurd ht' hr
+      · rw [if_neg e] at ht'
+        obtain ⟨h1, h2⟩ := hi.rlock t' ht'
+        refine ⟨h1, fun hac => ?_⟩
+        have := h2 hac
+        rw [hold] at this
+        exact absurd (Option.some.inj this) (fun e' => h1 e'.symm)
+  · have hlk : (s1.procRel b t).lock = s.lock := by
+      simp only [St.procRel]; rw [if_neg h0]; exact hl
+    exact hi.move cfg t p hpc' hlk hq' (fun hh => by
+      by_cases e : t = 0
+      · exact absurd e (hp hh)
+      · exact hcs) hr
+
 theorem mutexInv_step (hl : cfg.sendLocked = true) (s s' : St) (a : Act)
     (hi : MutexInv cfg s) (h : step cfg bytesOf s a = some s') : MutexInv cfg s' := by
   cases a with
   | lockSend t sid =>
     obtain ⟨⟨ht0, hq, hp, _, hlk⟩, rfl⟩ := step_lockSend h
     have hnone := hlk hl
-    constructor
+    refine ⟨?_, ?_, ?_⟩
     · intro t' ht'
       rw [pc_setPc] at ht'
       by_cases e : t = t'
       · subst e; exact ⟨fun hq' => by simp [hq] at hq', fun _ => ⟨ht0, rfl⟩⟩
       · rw [if_neg e] at ht'
-        have := (hi.cs t' ht').2 hq
+        have := ((hi.cs t' ht').2 hq).2
         simp [hnone] at this
     · exact hi.noq
+    · intro t' ht'
+      rw [pc_setPc] at ht'
+      by_cases e : t = t'
+      · rw [if_pos e] at ht'; cases ht'
+      · rw [if_neg e] at ht'
+        obtain ⟨h1, h2⟩ := hi.rlock t' ht'
+        refine ⟨h1, fun hac => ?_⟩
+        have := h2 hac
+        rw [hnone] at this; cases this
   | connectOk t =>
     obtain ⟨_, _, rfl⟩ := step_connectOk h
     exact hi.same cfg rfl rfl rfl
   | connectFail t =>
     obtain ⟨sid, hp, _, rfl⟩ := step_connectFail h
-    exact hi.move cfg t _ (fun t' => pc_setPc _ _ _ _) rfl rfl (fun _ => by simp [hp, inCS])
+    exact hi.move cfg t _ (fun t' => pc_setPc _ _ _ _) rfl rfl (fun _ => by simp [hp, inCS]) (by simp)
   | writeBegin t =>
     obtain ⟨sid, w, hp, _, _, _, rfl⟩ := step_writeBegin h
-    exact hi.move cfg t _ (fun t' => pc_setPc _ _ _ _) rfl rfl (fun _ => by simp [hp, inCS])
+    exact hi.move cfg t _ (fun t' => pc_setPc _ _ _ _) rfl rfl (fun _ => by simp [hp, inCS]) (by simp)
   | writeSticky t =>
     obtain ⟨sid, w, hp, _, _, _, rfl⟩ := step_writeSticky h
-    exact hi.move cfg t _ (fun t' => pc_setPc _ _ _ _) rfl rfl (fun _ => by simp [hp, inCS])
+    exact hi.move cfg t _ (fun t' => pc_setPc _ _ _ _) rfl rfl (fun _ => by simp [hp, inCS]) (by simp)
   | writeChunk t n =>
     obtain ⟨sid, w, rest, hp, _, _, rfl⟩ := step_writeChunk h
-    exact hi.move cfg t _ (fun t' => pc_setPc _ _ _ _) rfl rfl (fun _ => by simp [hp, inCS])
+    exact hi.move cfg t _ (fun t' => pc_setPc _ _ _ _) rfl rfl (fun _ => by simp [hp, inCS]) (by simp)
   | writeEnd t =>
     obtain ⟨sid, w, hp, rfl⟩ := step_writeEnd h
-    exact hi.move cfg t _ (fun t' => pc_setPc _ _ _ _) rfl rfl (fun _ => by simp [hp, inCS])
+    exact hi.move cfg t _ (fun t' => pc_setPc _ _ _ _) rfl rfl (fun _ => by simp [hp, inCS]) (by simp)
   | autoFlush t k =>
     obtain ⟨sid, w, rest, hp, _, rfl⟩ := step_autoFlush h
     exact hi.same cfg rfl rfl rfl
   | autoFlushErr t k =>
     obtain ⟨sid, w, rest, hp, _, rfl⟩ := step_autoFlushErr h
-    exact hi.move cfg t _ (fun t' => pc_setPc _ _ _ _) rfl rfl (fun _ => by simp [hp, inCS])
+    exact hi.move cfg t _ (fun t' => pc_setPc _ _ _ _) rfl rfl (fun _ => by simp [hp, inCS]) (by simp)
   | flushOk t =>
     obtain ⟨sid, w0, w, hp, _, _, rfl⟩ := step_flushOk h
-    exact hi.move cfg t _ (fun t' => finish_pc _ _ _ _ _) (finish_lock _ _ _ _) (finish_queue _ _ _ _)
-      (fun _ => by simp [hp, inCS])
+    refine hi.finished cfg t _ _ (fun t' => finish_pc _ _ _ _ _) (finish_lock _ _ _ _) (finish_queue _ _ _ _)
+      (by simp [hp, inCS]) ?_ ?_ rfl
+    · intro hh e; simp [e, inCS] at hh
+    · split <;> simp
   | flushErr t k =>
     obtain ⟨sid, w0, w, hp, _, _, rfl⟩ := step_flushErr h
-    exact hi.move cfg t _ (fun t' => finish_pc _ _ _ _ _) (finish_lock _ _ _ _) (finish_queue _ _ _ _)
-      (fun _ => by simp [hp, inCS])
+    refine hi.finished cfg t _ _ (fun t' => finish_pc _ _ _ _ _) (finish_lock _ _ _ _) (finish_queue _ _ _ _)
+      (by simp [hp, inCS]) ?_ ?_ rfl
+    · intro hh e; simp [e, inCS] at hh
+    · split <;> simp
   | close t =>
     obtain ⟨sid, hp, rfl⟩ := step_close h
-    exact hi.move cfg t _ (fun t' => pc_setPc _ _ _ _) rfl rfl (fun _ => by simp [hp, inCS])
+    exact hi.move cfg t _ (fun t' => pc_setPc _ _ _ _) rfl rfl (fun _ => by simp [hp, inCS]) (by split <;> simp)
   | flushAfterFail =>
     obtain ⟨sid, hp, rfl⟩ := step_flushAfterFail h
-    exact hi.move cfg 0 _ (fun t' => pc_setPc _ _ _ _) rfl rfl (fun _ => by simp [hp, inCS])
+    exact hi.finished cfg 0 _ _ (fun t' => pc_setPc _ _ _ _) rfl rfl (by simp [hp, inCS])
+      (fun hh => by simp [inCS] at hh) (by simp) rfl
   | unlock t =>
-    obtain ⟨sid, ok, hp, rfl⟩ := step_unlock h
+    obtain ⟨sid, ok, hp, ht0, rfl⟩ := step_unlock h
     have hin : inCS (s.pc t) = true := by simp [hp, inCS]
-    constructor
+    have hdir : cfg.useQueue = false := by
+      cases hu : cfg.useQueue with
+      | false => rfl
+      | true => exact absurd ((hi.cs t hin).1 hu).1 ht0
+    have hlock : s.lock = some t := ((hi.cs t hin).2 hdir).2
+    refine ⟨?_, ?_, ?_⟩
     · intro t' ht'
       rw [pc_setPc] at ht'
       by_cases e : t = t'
       · subst e; simp [inCS] at ht'
       · rw [if_neg e] at ht'
-        refine ⟨(hi.cs t' ht').1, fun hq => ?_⟩
-        have h1 := (hi.cs t' ht').2 hq
-        have h2 := (hi.cs t hin).2 hq
-        exact absurd (Option.some.inj (h2.2.symm.trans h1.2)) e
+        have h1 := ((hi.cs t' ht').2 hdir).2
+        exact absurd (Option.some.inj (hlock.symm.trans h1)) e
     · exact hi.noq
+    · intro t' ht'
+      rw [pc_setPc] at ht'
+      by_cases e : t = t'
+      · rw [if_pos e] at ht'; cases ht'
+      · rw [if_neg e] at ht'
+        obtain ⟨h1, h2⟩ := hi.rlock t' ht'
+        refine ⟨h1, fun hac => ?_⟩
+        have := h2 hac
+        rw [hlock] at this
+        exact absurd (Option.some.inj this) e
   | enqueue t sid =>
     obtain ⟨⟨_, hq, _, _, _⟩, rfl⟩ := step_enqueue h
-    constructor
-    · exact hi.cs
-    · intro hq'; simp [hq] at hq'
+    refine ⟨hi.cs, ?_, hi.rlock⟩
+    intro hq'; simp [hq] at hq'
   | enqueueFail t sid =>
     obtain ⟨_, rfl⟩ := step_enqueueFail h
     exact hi.same cfg rfl rfl rfl
   | dequeue =>
-    obtain ⟨sid, q, hp, hq, rfl⟩ := step_dequeue h
+    obtain ⟨sid, q, hp, hq, _, hlk, rfl⟩ := step_dequeue h
     have huq : cfg.useQueue = true := by
       cases hu : cfg.useQueue with
       | true => rfl
       | false => have := hi.noq hu; simp [hq] at this
-    constructor
+    refine ⟨?_, ?_, ?_⟩
     · intro t' ht'
       rw [pc_setPc] at ht'
       by_cases e : 0 = t'
-      · subst e; exact ⟨fun _ => rfl, fun hq' => by simp [huq] at hq'⟩
-      · rw [if_neg e] at ht'; exact hi.cs t' ht'
+      · subst e
+        refine ⟨fun _ => ⟨rfl, fun hpl => by simp [St.setPc, hpl]⟩, fun hq' => by simp [huq] at hq'⟩
+      · rw [if_neg e] at ht'
+        exact absurd ((hi.cs t' ht').1 huq).1.symm e
     · intro hq'; simp [huq] at hq'
+    · intro t' ht'
+      rw [pc_setPc] at ht'
+      by_cases e : 0 = t'
+      · rw [if_pos e] at ht'; cases ht'
+      · rw [if_neg e] at ht'
+        obtain ⟨h1, h2⟩ := hi.rlock t' ht'
+        refine ⟨h1, fun hac => ?_⟩
+        have h3 := h2 hac
+        by_cases hpl : cfg.procLocked = true
+        · rw [hlk hpl] at h3; cases h3
+        · simp only [St.setPc]; rw [if_neg hpl]; exact h3
   | bgConnectOk =>
     obtain ⟨_, rfl⟩ := step_bgConnectOk h
     exact hi.same cfg rfl rfl rfl
@@ -163,21 +255,110 @@ theorem mutexInv_step (hl : cfg.sendLocked = true) (s s' : St) (a : Act)
     exact hi
   | bgCheck =>
     obtain ⟨_, rfl⟩ := step_bgCheck h
-    exact hi.move cfg 0 _ (fun t' => pc_setPc _ _ _ _) rfl rfl (fun hh => by simp [inCS] at hh)
+    exact hi.move cfg 0 _ (fun t' => pc_setPc _ _ _ _) rfl rfl (fun hh => by simp [inCS] at hh) (by simp)
   | bgDialOk =>
     obtain ⟨_, rfl⟩ := step_bgDialOk h
-    exact hi.move cfg 0 _ (fun t' => pc_setPc _ _ _ _) rfl rfl (fun hh => by simp [inCS] at hh)
+    exact hi.move cfg 0 _ (fun t' => pc_setPc _ _ _ _) rfl rfl (fun hh => by simp [inCS] at hh) (by simp)
   | bgDialFail =>
     obtain ⟨_, rfl⟩ := step_bgDialFail h
-    exact hi.move cfg 0 _ (fun t' => pc_setPc _ _ _ _) rfl rfl (fun hh => by simp [inCS] at hh)
+    exact hi.move cfg 0 _ (fun t' => pc_setPc _ _ _ _) rfl rfl (fun hh => by simp [inCS] at hh) (by simp)
   | peerClose c n =>
     obtain ⟨_, rfl⟩ := step_peerClose h
     exact hi.same cfg rfl rfl rfl
+  | setCapacity c =>
+    rw [step_setCapacity h]
+    exact hi.same cfg rfl rfl rfl
+  | setTimeout n =>
+    rw [step_setTimeout h]
+    exact hi.same cfg rfl rfl rfl
+  | tick d =>
+    rw [step_tick h]
+    exact hi.same cfg rfl rfl rfl
+  | reconfClose t =>
+    obtain ⟨⟨ht0, hp, hlk⟩, rfl⟩ := step_reconfClose h
+    refine ⟨?_, hi.noq, ?_⟩
+    · intro t' ht'
+      rw [pc_setPc] at ht'
+      by_cases e : t = t'
+      · rw [if_pos e] at ht'; simp [inCS] at ht'
+      · rw [if_neg e] at ht'
+        obtain ⟨h1, h2⟩ := hi.cs t' ht'
+        by_cases hac : cfg.acLocked = true
+        · have hn := hlk hac
+          refine ⟨fun hu => ⟨(h1 hu).1, fun hpl => ?_⟩, fun hu => ?_⟩
+          · have := (h1 hu).2 hpl; rw [hn] at this; cases this
+          · have := (h2 hu).2; rw [hn] at this; cases this
+        · simp only [St.setPc]; rw [if_neg hac]; exact ⟨h1, h2⟩
+    · intro t' ht'
+      rw [pc_setPc] at ht'
+      by_cases e : t = t'
+      · subst e; exact ⟨ht0, fun hac => by simp [St.setPc, hac]⟩
+      · rw [if_neg e] at ht'
+        obtain ⟨h1, h2⟩ := hi.rlock t' ht'
+        refine ⟨h1, fun hac => ?_⟩
+        have := h2 hac
+        rw [hlk hac] at this; cases this
+  | reconfDialOk t =>
+    obtain ⟨hp, rfl⟩ := step_reconfDialOk h
+    obtain ⟨ht0, hlt⟩ := hi.rlock t hp
+    refine ⟨?_, hi.noq, ?_⟩
+    · intro t' ht'
+      rw [pc_setPc] at ht'
+      by_cases e : t = t'
+      · rw [if_pos e] at ht'; simp [inCS] at ht'
+      · rw [if_neg e] at ht'
+        obtain ⟨h1, h2⟩ := hi.cs t' ht'
+        by_cases hac : cfg.acLocked = true
+        · have hn := hlt hac
+          refine ⟨fun hu => ⟨(h1 hu).1, fun hpl => ?_⟩, fun hu => ?_⟩
+          · have := (h1 hu).2 hpl; rw [hn] at this
+            exact absurd (Option.some.inj this) ht0
+          · have := (h2 hu).2; rw [hn] at this
+            exact absurd (Option.some.inj this) e
+        · simp only [St.setPc]; rw [if_neg hac]; exact ⟨h1, h2⟩
+    · intro t' ht'
+      rw [pc_setPc] at ht'
+      by_cases e : t = t'
+      · rw [if_pos e] at ht'; cases ht'
+      · rw [if_neg e] at ht'
+        obtain ⟨h1, h2⟩ := hi.rlock t' ht'
+        refine ⟨h1, fun hac => ?_⟩
+        have := h2 hac
+        rw [hlt hac] at this
+        exact absurd (Option.some.inj this) e
+  | reconfDialFail t =>
+    obtain ⟨hp, rfl⟩ := step_reconfDialFail h
+    obtain ⟨ht0, hlt⟩ := hi.rlock t hp
+    refine ⟨?_, hi.noq, ?_⟩
+    · intro t' ht'
+      rw [pc_setPc] at ht'
+      by_cases e : t = t'
+      · rw [if_pos e] at ht'; simp [inCS] at ht'
+      · rw [if_neg e] at ht'
+        obtain ⟨h1, h2⟩ := hi.cs t' ht'
+        by_cases hac : cfg.acLocked = true
+        · have hn := hlt hac
+          refine ⟨fun hu => ⟨(h1 hu).1, fun hpl => ?_⟩, fun hu => ?_⟩
+          · have := (h1 hu).2 hpl; rw [hn] at this
+            exact absurd (Option.some.inj this) ht0
+          · have := (h2 hu).2; rw [hn] at this
+            exact absurd (Option.some.inj this) e
+        · simp only [St.setPc]; rw [if_neg hac]; exact ⟨h1, h2⟩
+    · intro t' ht'
+      rw [pc_setPc] at ht'
+      by_cases e : t = t'
+      · rw [if_pos e] at ht'; cases ht'
+      · rw [if_neg e] at ht'
+        obtain ⟨h1, h2⟩ := hi.rlock t' ht'
+        refine ⟨h1, fun hac => ?_⟩
+        have := h2 hac
+        rw [hlt hac] at this
+        exact absurd (Option.some.inj this) e
 
 theorem mutex_unique {s : St} (hi : MutexInv cfg s) (t t' : Nat)
     (h1 : inCS (s.pc t) = true) (h2 : inCS (s.pc t') = true) : t = t' := by
   cases hq : cfg.useQueue with
-  | true => rw [(hi.cs t h1).1 hq, (hi.cs t' h2).1 hq]
+  | true => rw [((hi.cs t h1).1 hq).1, ((hi.cs t' h2).1 hq).1]
   | false =>
     have a := ((hi.cs t h1).2 hq).2
     have b := ((hi.cs t' h2).2 hq).2
@@ -254,6 +435,10 @@ theorem BytesInv.same {s s' : St} (hi : BytesInv bytesOf s)
     rcases hi.p2 w hw with he | ⟨t', sid, ht'⟩
     · exact Or.inl (herr w he)
     · exact Or.inr ⟨t', sid, by simp only [St.pc, hpc]; exact ht'⟩
+
+/-- releasing the lock does not touch anything this invariant reads -/
+theorem BytesInv.procRel {s : St} (hi : BytesInv bytesOf s) (b : Bool) (t : Nat) :
+    BytesInv bytesOf (s.procRel b t) := ⟨hi.eq, hi.p1, hi.p2⟩
 
 theorem finish_sent_buf (s : St) (t sid : Nat) (ok : Bool) (w : Nat) :
     (s.finish t sid ok).sent w ++ (s.finish t sid ok).buf.get w = s.sent w ++ s.buf.get w := by
@@ -378,6 +563,7 @@ theorem bytesInv_step (s s' : St) (a : Act) (hm : MutexInv cfg s)
     exact Or.inr (by simp [St.setPc, St.setErr])
   | flushOk t =>
     obtain ⟨sid, w0, w, hp, _, _, rfl⟩ := step_flushOk h
+    refine BytesInv.procRel bytesOf ?_ _ _
     refine hi.move bytesOf t _ (fun t' => finish_pc _ _ _ _ _)
       (fun w' => (finish_sent_buf _ _ _ _ _).trans (push_sent_buf s w _ w'))
       (finish_pend _ _ _ _) (finish_log _ _ _ _) (fun w' h' => by rw [finish_err]; exact h') ?_ ?_
@@ -385,6 +571,7 @@ theorem bytesInv_step (s s' : St) (a : Act) (hm : MutexInv cfg s)
     · intro sid' w' rest' h'; rw [hp] at h'; cases h'
   | flushErr t k =>
     obtain ⟨sid, w0, w, hp, _, _, rfl⟩ := step_flushErr h
+    refine BytesInv.procRel bytesOf ?_ _ _
     refine hi.move bytesOf t _ (fun t' => finish_pc _ _ _ _ _)
       (fun w' => (finish_sent_buf _ _ _ _ _).trans (push_sent_buf s w _ w'))
       (finish_pend _ _ _ _) (finish_log _ _ _ _)
@@ -397,9 +584,10 @@ theorem bytesInv_step (s s' : St) (a : Act) (hm : MutexInv cfg s)
     split <;> rfl
   | flushAfterFail =>
     obtain ⟨sid, hp, rfl⟩ := step_flushAfterFail h
+    refine BytesInv.procRel bytesOf ?_ _ _
     exact hi.move bytesOf 0 _ (fun t' => pc_setPc _ _ _ _) (fun _ => rfl) rfl rfl (fun _ h => h) rfl (nw hp rfl)
   | unlock t =>
-    obtain ⟨sid, ok, hp, rfl⟩ := step_unlock h
+    obtain ⟨sid, ok, hp, _, rfl⟩ := step_unlock h
     exact hi.move bytesOf t _ (fun t' => pc_setPc _ _ _ _) (fun _ => rfl) rfl rfl (fun _ h => h) rfl (nw hp rfl)
   | enqueue t sid =>
     obtain ⟨_, rfl⟩ := step_enqueue h
@@ -408,7 +596,7 @@ theorem bytesInv_step (s s' : St) (a : Act) (hm : MutexInv cfg s)
     obtain ⟨_, rfl⟩ := step_enqueueFail h
     exact hi.same bytesOf rfl (fun _ => rfl) rfl rfl (fun _ h => h)
   | dequeue =>
-    obtain ⟨sid, q, hp, _, rfl⟩ := step_dequeue h
+    obtain ⟨sid, q, hp, _, _, _, rfl⟩ := step_dequeue h
     exact hi.move bytesOf 0 _ (fun t' => pc_setPc _ _ _ _) (fun _ => rfl) rfl rfl (fun _ h => h) rfl (nw hp rfl)
   | bgConnectOk =>
     obtain ⟨_, rfl⟩ := step_bgConnectOk h
@@ -428,5 +616,23 @@ theorem bytesInv_step (s s' : St) (a : Act) (hm : MutexInv cfg s)
   | peerClose c n =>
     obtain ⟨_, rfl⟩ := step_peerClose h
     exact hi.same bytesOf rfl (fun _ => rfl) rfl rfl (fun _ h => h)
+  | setCapacity c =>
+    rw [step_setCapacity h]
+    exact hi.same bytesOf rfl (fun _ => rfl) rfl rfl (fun _ h => h)
+  | setTimeout n =>
+    rw [step_setTimeout h]
+    exact hi.same bytesOf rfl (fun _ => rfl) rfl rfl (fun _ h => h)
+  | tick d =>
+    rw [step_tick h]
+    exact hi.same bytesOf rfl (fun _ => rfl) rfl rfl (fun _ h => h)
+  | reconfClose t =>
+    obtain ⟨⟨_, hp, _⟩, rfl⟩ := step_reconfClose h
+    exact hi.move bytesOf t _ (fun t' => pc_setPc _ _ _ _) (fun _ => rfl) rfl rfl (fun _ h => h) rfl (nw hp rfl)
+  | reconfDialOk t =>
+    obtain ⟨hp, rfl⟩ := step_reconfDialOk h
+    exact hi.move bytesOf t _ (fun t' => pc_setPc _ _ _ _) (fun _ => rfl) rfl rfl (fun _ h => h) rfl (nw hp rfl)
+  | reconfDialFail t =>
+    obtain ⟨hp, rfl⟩ := step_reconfDialFail h
+    exact hi.move bytesOf t _ (fun t' => pc_setPc _ _ _ _) (fun _ => rfl) rfl rfl (fun _ h => h) rfl (nw hp rfl)
 
 end Tcp
